@@ -5,3 +5,12 @@ import "github.com/buzzfeed/sso/internal/pkg/verifpools"
 // resetPools empties the deterministic stand-ins for sync.Pool in every rewritten package:
 // objects recycled in one run must not be handed out in the next (a run is a function of its plan).
 func resetPools() { verifpools.ResetAll() }
+
+// seedRand seeds the overlay's stand-in for math/rand's global source from the schedule (a run is a function of its plan).
+func seedRand(choices []int) {
+	h := uint64(1469598103934665603)
+	for _, c := range choices {
+		h = (h ^ uint64(c)) * 1099511628211
+	}
+	verifpools.SetSeed(h)
+}
